@@ -326,7 +326,10 @@ func RunShut(c ShutCase) harn.Result {
 		}
 	}
 	h.mu.Unlock()
-	injected := errors.New("injected connection failure")
+	var injected error = errors.New("injected connection failure")
+	if c.Offset%2 == 1 {
+		injected = memconn.ErrReset // a permanent failure that implements net.Error
+	}
 	switch c.Fault {
 	case "readerr":
 		// part of one more frame arrives, then the read fails
